@@ -680,3 +680,21 @@ law("Cursor.parent", "API parent(): the owning statement, InvalidCursor() for a 
     lambda a, v: isinstance(v, PC.InvalidCursor) if a.t.level == "root" else
     And(isinstance(v, PC.StmtCursor), v._proc is a.proc, cursor_eq(v._impl, parent_node(a.t))),
     file=F_PC)
+
+
+def g_api_stmt_expand(g):
+    d = g_api_stmt(g)
+    dl = g.choose([None, "int"], "dlo")
+    dh = g.choose([None, "int"], "dhi")
+    d["dlo"] = g.nat("dlo") if dl else None
+    d["dhi"] = g.nat("dhi") if dh else None
+    return d
+
+
+law("StmtCursor.expand", "API statement expand(dlo, dhi) is the clipped block around the statement",
+    g_api_stmt_expand, lambda R, fn, a: R.call(fn, a.cur, a.dlo, a.dhi),
+    lambda a, v: And(isinstance(v, PC.BlockCursor), v._proc is a.proc, cursor_eq(v._impl._anchor, parent_node(a.t)),
+                     v._impl._attr == a.t.attr,
+                     v._impl._range.start == (0 if a.dlo is None else S.Max(0, a.i - a.dlo)),
+                     v._impl._range.stop == (a.t.n if a.dhi is None else S.Min(a.t.n, a.i + 1 + a.dhi))),
+    file=F_PC)
